@@ -71,6 +71,7 @@ def run_driver(lines, driver="Driver.lean", soft=False):
                            stdin=fin, capture_output=True, text=True)
     os.unlink(path)
     if r.returncode != 0 and soft:
+        run_driver.last_error = (r.stderr[-1500:] + r.stdout[-500:])
         return None
     if r.returncode != 0:
         raise RuntimeError("Lean driver failed: " + r.stderr[-2000:] + r.stdout[-2000:])
